@@ -161,7 +161,7 @@ func init() {
 		Oracle: oracleC23, Quick: 400, Thorough: 20000,
 		Assumptions: []string{"refsn encodes MQTT-SN 1.2 + bisquitt AUTH correctly (written from the specification, cross-checked against datagrams the 181 repo tests expect)", "datagram transport is the simulated link, not pion/udp"}})
 	Register(&Check{ID: "C24", Level: "exploration",
-		Rule: "random raw-peer sessions biased to decodable-but-untranslatable input (reserved topic-id type, QoS 3 SUBSCRIBE, id 0, DUP+QoS0, empty/wildcard/NUL names, will oddities), every third run the connect-exchange generator of C08/C09 (out-of-turn, repeated, retransmitted and empty WILLTOPIC/WILLMSG/AUTH, slow broker); every MQTT packet written to the broker is judged by refmqtt; non-trivial = >= 2 MQTT packets judged",
+		Rule: "random raw-peer sessions biased to decodable-but-untranslatable input (reserved topic-id type, QoS 3 SUBSCRIBE, id 0, DUP+QoS0, empty/wildcard/NUL names, will oddities), every third run the connect-exchange generator of C08/C09 (out-of-turn, repeated, retransmitted and empty WILLTOPIC/WILLMSG/AUTH, slow broker), every fifth gwmix run with 1-2 periods of TCP backpressure (the broker stops reading, the connection takes 0-40 more bytes, writes time out half-way and are resumed); every MQTT packet written to the broker is judged by refmqtt; non-trivial = >= 2 MQTT packets judged",
 		Gen: func(g *Gen, idx int) *Plan {
 			if idx%3 == 2 {
 				// the connect exchange with its out-of-turn, repeated and "no will after all" packets
@@ -172,7 +172,16 @@ func init() {
 				}
 				return p
 			}
-			return genGWMix(g, 0.35, "C24-gwmix")
+			p := genGWMix(g, 0.35, "C24-gwmix")
+			if idx%5 == 4 {
+				// the broker stops reading for a while: the TCP window fills, the gateway's writes time out
+				// half-way (100 ms write deadline) and are resumed — the byte stream must stay a packet stream
+				p.Family = "C24-gwmix-backpressure"
+				for k := 0; k < int(g.Range(1, 3)); k++ {
+					p.Broker.Faults = append(p.Broker.Faults, BrokerFault{AtMs: g.Range(300, p.Cfg.HorizonMs*2/3+301), Session: "p1", Kind: "backpressure", Cap: int(g.Range(0, 40)), DurMs: g.Range(120, 1500)})
+				}
+			}
+			return p
 		},
 		Oracle: oracleC24, Quick: 400, Thorough: 20000,
 		Assumptions: []string{"refmqtt implements the MQTT 3.1.1 normative statements listed in DESIGN.md §3.5"}})
